@@ -75,8 +75,23 @@ def _cond(p: ast.AST, s: ast.expr, binds: List[Tuple[str, ast.expr]]) -> ast.exp
                 raise _Unsupported("bindings inside an or-pattern")
         return ast.BoolOp(op=ast.Or(), values=alts)
     if isinstance(p, ast.MatchSequence):
-        if any(isinstance(q, ast.MatchStar) for q in p.patterns):
-            raise _Unsupported("star pattern")
+        stars = [i for i, q in enumerate(p.patterns) if isinstance(q, ast.MatchStar)]
+        if stars:
+            # (a, *rest, z): at least the fixed elements; those before the star by index, those after it from the end
+            if isinstance(s, ast.Tuple):
+                raise _Unsupported("star pattern against a tuple display")
+            k = stars[0]
+            before, after = p.patterns[:k], p.patterns[k + 1:]
+            ln = lambda: ast.Call(func=ast.Name(id="len", ctx=ast.Load()), args=[c()], keywords=[])  # noqa: E731
+            cs = [ast.Compare(left=ln(), ops=[ast.GtE()], comparators=[ast.Constant(value=len(before) + len(after))])]
+            for i, q in enumerate(before):
+                cs.append(_cond(q, ast.Subscript(value=c(), slice=ast.Constant(value=i), ctx=ast.Load()), binds))
+            for j, q in enumerate(after):
+                cs.append(_cond(q, ast.Subscript(value=c(), slice=ast.UnaryOp(op=ast.USub(), operand=ast.Constant(value=len(after) - j)), ctx=ast.Load()), binds))
+            if p.patterns[k].name is not None:
+                upper = ast.UnaryOp(op=ast.USub(), operand=ast.Constant(value=len(after))) if after else None
+                binds.append((p.patterns[k].name, ast.Call(func=ast.Name(id="list", ctx=ast.Load()), args=[ast.Subscript(value=c(), slice=ast.Slice(lower=ast.Constant(value=len(before)), upper=upper), ctx=ast.Load())], keywords=[])))
+            return _and(cs)
         if isinstance(s, ast.Tuple) and len(s.elts) == len(p.patterns):
             return _and([_cond(q, e, binds) for q, e in zip(p.patterns, s.elts)])
         if isinstance(s, ast.Tuple):
